@@ -707,7 +707,8 @@ def remove_tensor(expr: e.Expr, t_name: str) -> dict:
         else:
             t_block = [f"{tensor.space}_{spin}"]
         # print(t_block, remaining_term)
-        if len(tensors) == 1:  # only a single occurence no need to recurse
+        # only a single occurence (with exponent 1): no need to recurse
+        if len(tensors) == 1 and exponent == 1:
             return {tuple(t_block): remaining_term}
         else:  # more than one occurence of the tensor
             # iterate through the terms that already have the first occurence
